@@ -398,7 +398,41 @@ Definition P_C14_jail_block (prev : snapshot) (b : blk) : bool :=
     | None => jailed
     | Some d => negb jailed && eqb_list Z.eqb (sv_power <$> dv_stakes d) (sv_power <$> dv_stakes x.2)
     end) (all_dels prev).
-Definition P_C14_stake (c : acase) : bool := forall_blocks c (λ prev b, P_C14_block prev b && P_C14_jail_block prev b).
+(* the same decision from the HEADERS alone: the heights a validator missed are those the blocks
+   reported (block h reports on h-1), collected while it stays a delegatee — independent of the
+   miss records the node keeps (and trims) itself, which the clause above reads from the previous
+   snapshot *)
+Definition upd_miss (acc : list (addr * list Z)) (a : addr) (sh : Z) : list (addr * list Z) :=
+  match assoc a acc with
+  | Some l => (a, if existsb (Z.eqb sh) l then l else l ++ [sh]) :: List.filter (λ x : addr * list Z, negb (x.1 =? a)%N) acc
+  | None => (a, [sh]) :: acc
+  end.
+Fixpoint C14_jail_walk (acc : list (addr * list Z)) (pbs : list (snapshot * blk)) : bool :=
+  match pbs with
+  | [] => true
+  | (prev, b) :: r =>
+      let g := sn_params prev in
+      let sh := h_height (k_hdr b) - 1 in
+      let s0 := if sh - g_signedBlocksWindow g <? 0 then 0 else sh - g_signedBlocksWindow g in
+      let missers := List.filter (λ x : addr * del_view, missed_vote b x.1) (all_dels prev) in
+      let acc1 := foldl (λ acc (x : addr * del_view), upd_miss acc x.1 sh) acc missers in
+      let ok := forallb (λ x : addr * del_view,
+          let a := x.1 in
+          if touched_by_tx b a || negb (Nat.eqb (count_occ_addr a (h_evidence (k_hdr b))) 0) then true else
+          let all := default [] (assoc a acc1) in
+          let missed := Z.of_nat (length (List.filter (λ m, (s0 <=? m) && (m <=? sh)) all)) in
+          let jailed := g_signedBlocksWindow g - missed <? g_minSignedBlocks g in
+          match sn_del (k_snap b) a with None => jailed | Some _ => negb jailed end) missers in
+      let acc2 := List.filter (λ x : addr * list Z, match sn_del (k_snap b) x.1 with Some _ => true | None => false end) acc1 in
+      ok && C14_jail_walk acc2 r
+  end.
+Definition P_C14_jail_history (c : acase) : bool :=
+  match z_gen (parse c) with
+  | None => true
+  | Some g => C14_jail_walk [] (with_prev (genesis_snapshot (c_wa c) (c_wh c) g) (z_blocks (parse c)))
+  end.
+Definition P_C14_stake (c : acase) : bool :=
+  forall_blocks c (λ prev b, P_C14_block prev b && P_C14_jail_block prev b) && P_C14_jail_history c.
 
 (* ------------------------------------------------------------------ C10: validator updates *)
 (* the powers the property speaks of are those of the STAKES: total bonded power = sum of the stakes
@@ -525,6 +559,28 @@ Definition submitted_opts (bs : list blk) (ph : hash) : list (N * option params)
   foldr (λ b acc, foldr (λ x acc, if succeeded x && (t_type x.1 =? TRX_PROPOSAL) && (t_hash x.1 =? ph)%N
                                   then match t_payload x.1 with PProposal _ _ _ _ opts _ => opts | _ => acc end else acc) acc (k_txs b)) [] bs.
 
+(* the choice the last successful voting transaction of [a] on proposal [ph] in block [b] asked for *)
+Definition last_vote_in (b : blk) (ph : hash) (a : addr) : option Z :=
+  foldl (λ acc x, if succeeded x && (t_type x.1 =? TRX_VOTING) && (t_from x.1 =? a)%N
+                  then match t_payload x.1 with PVoting h c => if (h =? ph)%N then Some c else acc | _ => acc end
+                  else acc) None (k_txs b).
+(* a voter's recorded choice moves only by its own delivered votes: after a block it is the choice of
+   its last successful voting transaction in that block, else what it was before (none, -1, in a
+   proposal that is new) *)
+Definition choices_follow_votes (prev : snapshot) (b : blk) : bool :=
+  forallb (λ hp : hash * option prop_view,
+    match hp.2 with
+    | Some p1 =>
+        if pv_frozen p1 then true else
+        forallb (λ v1 : addr * Z * Z,
+          let before := match sn_prop prev hp.1 with
+                        | Some p0 => match List.find (λ v0 : addr * Z * Z, (v0.1.1 =? v1.1.1)%N) (pv_voters p0) with
+                                     | Some v0 => v0.2 | None => -1 end
+                        | None => -1 end in
+          v1.2 =? default before (last_vote_in b hp.1 v1.1.1)) (pv_voters p1)
+    | None => true
+    end) (sn_props (k_snap b)).
+
 Definition P_C15 (c : acase) : bool :=
   match z_gen (parse c) with
   | None => true
@@ -537,6 +593,8 @@ Definition P_C15 (c : acase) : bool :=
       let sn := k_snap b in
       (* tallies consistent *)
       forallb (λ hp : hash * option prop_view, match hp.2 with Some p => tally_ok p | None => true end) (sn_props sn)
+      (* "the latest vote replacing earlier ones", and nothing but a vote: recorded choices follow the delivered votes *)
+      && choices_follow_votes prev b
       (* a proposal frozen now was voting before, its window had closed, and its major option has the majority *)
       && forallb (λ hp : hash * option prop_view,
            match hp.2, sn_prop prev hp.1 with
